@@ -11,6 +11,12 @@ structure FactsHist where
   /-- `append_field` / `insert_field` on a class drop the WHOLE flat-type-info memo (otherwise only the
       entry of the class itself: its subclasses keep the member list they had when they were first used) -/
   appendClearsMemo : Bool
+  /-- the table from wire names (sub_name / sub_ns) to members that `complex_from_element` consults
+      (`_type_info_alt`) of a class contains the entries of its ancestors (otherwise only its own) -/
+  altNamesInherited : Bool
+  /-- the enumeration facet (`values`) treats only None as "no value": falsy non-null values (0, '', false) are
+      checked against the set like any other -/
+  falsyValuesChecked : Bool
   deriving Repr, DecidableEq
 
 structure ClassDecl where
@@ -56,6 +62,24 @@ def TreeState.appendField (H : FactsHist) (s : TreeState) (c f : Text) : TreeSta
 def TreeState.insertField (H : FactsHist) (s : TreeState) (c : Text) (i : Nat) (f : Text) : TreeState :=
   { decls := s.decls.map (fun k => if k.name = c then { k with own := k.own.take i ++ f :: k.own.drop i } else k),
     memo := if H.appendClearsMemo then [] else s.memo.filter (fun e => e.1 ≠ c) }
+
+/-- declared renamings: class, its base, and the (wire name, member) pairs the class declares itself -/
+structure AltDecl where
+  name : Text
+  base : Option Text
+  alts : List (Text × Text)
+  deriving Repr, Inhabited
+
+/-- `cls._type_info_alt` as the decoder sees it -/
+def altTable (H : FactsHist) (d : List AltDecl) : Nat → Text → List (Text × Text)
+  | 0, _ => []
+  | n + 1, c =>
+    match d.find? (fun k => k.name = c) with
+    | none => []
+    | some k =>
+      (match k.base with
+       | some b => if H.altNamesInherited then altTable H d n b else []
+       | none => []) ++ k.alts
 
 end Xml
 end SpyneModel
